@@ -5,14 +5,15 @@ use rand::Rng as _;
 use redis_sim::redis::SDS;
 use redis_sim::replication::lattice::{LamportClock, ReplicaId};
 use redis_sim::replication::state::{ReplicatedValue, ReplicationDelta};
-use redis_sim::streaming::wal::{WalEntry, WalRotator, WalWriter};
-use redis_sim::streaming::wal_store::{InMemoryWalStore, WalFileWriter, WalStore};
+use redis_sim::streaming::wal::{WalEntry, WalReader, WalRotator, WalWriter};
+use redis_sim::streaming::wal_store::{InMemoryWalStore, LocalWalStore, SimulatedWalStore, SimulatedWalStoreConfig, WalFileWriter, WalStore};
 use serde_json::json;
 use std::collections::BTreeMap;
 use vharness::util::*;
 
 pub const HEADER: &str = "From RV Require Import Corr.C10.\nLocal Open Scope string_scope.\nLocal Open Scope N_scope.\nLocal Open Scope list_scope.";
 const KNOWN: &str = "C10-entry-header-unprotected";
+const KNOWN_ZERO: &str = "C10-wal-zero-header-is-an-entry";
 
 /// Bitwise CRC-32/IEEE; every use is cross-checked against the crate through WalEntry::validate.
 fn crc32(d: &[u8]) -> u32 {
@@ -32,6 +33,7 @@ struct Ent {
     data: Vec<u8>,
     crc: u32,
     poison: bool, // payload is not a bincode ReplicationDelta
+    canon: Option<String>, // serde_json text of the delta the payload was built from
 }
 #[derive(Clone)]
 struct FileSpec {
@@ -46,10 +48,14 @@ enum Mut {
     Flip(usize, usize, u32),
     Patch(usize, usize, Vec<u8>),
     Drop(usize),
+    /// file, offset, length, value: a zero- / 0xFF-filled range (clipped)
+    Fill(usize, usize, usize, u8),
+    /// file, count, value: bytes appended after the end (preallocated / garbage tail)
+    Append(usize, usize, u8),
 }
 impl Mut {
     fn file(&self) -> usize {
-        match self { Mut::Trunc(f, _) | Mut::Flip(f, _, _) | Mut::Patch(f, _, _) | Mut::Drop(f) => *f }
+        match self { Mut::Trunc(f, _) | Mut::Flip(f, _, _) | Mut::Patch(f, _, _) | Mut::Drop(f) | Mut::Fill(f, ..) | Mut::Append(f, ..) => *f }
     }
     fn term(&self) -> String {
         match self {
@@ -57,6 +63,8 @@ impl Mut {
             Mut::Flip(f, b, i) => format!("MFlip {} {} {}", f, b, i),
             Mut::Patch(f, o, d) => format!("MPatch {} {} {}", f, o, chex(d)),
             Mut::Drop(f) => format!("MDrop {}", f),
+            Mut::Fill(f, o, n, v) => format!("MFill {} {} {} {}", f, o, n, v),
+            Mut::Append(f, n, v) => format!("MAppend {} {} {}", f, n, v),
         }
     }
 }
@@ -77,9 +85,9 @@ fn gen_entry(rng: &mut Rng, i: usize) -> Ent {
         let n = match rng.gen_range(0..4) { 0 => 0, 1 => 1, _ => rng.gen_range(2..24) };
         let data: Vec<u8> = (0..n).map(|_| rng.gen()).collect();
         let crc = crc32(&data);
-        return Ent { ts, data, crc, poison: true };
+        return Ent { ts, data, crc, poison: true, canon: None };
     }
-    let vlen = match rng.gen_range(0..6) { 0 => 0, 1 => 40, _ => rng.gen_range(1..6) };
+    let vlen = match rng.gen_range(0..8) { 0 => 0, 1 => 40, 2 => [22usize, 23, 24][rng.gen_range(0..3)], _ => rng.gen_range(1..6) }; // 23 = SDS small-string limit
     let val: Vec<u8> = (0..vlen).map(|_| if rng.gen_bool(0.3) { [0u8, 255, 10, 13][rng.gen_range(0..4)] } else { rng.gen() }).collect();
     let clock = LamportClock { time: ts, replica_id: ReplicaId::new(rng.gen_range(1..4)) };
     let mut v = ReplicatedValue::with_value(SDS::new(val), clock);
@@ -92,7 +100,7 @@ fn gen_entry(rng: &mut Rng, i: usize) -> Ent {
     }
     let delta = ReplicationDelta::new(format!("k{}", i), v, ReplicaId::new(rng.gen_range(1..4)));
     let e = WalEntry::from_delta(&delta, ts).unwrap();
-    Ent { ts, data: e.data, crc: e.checksum, poison: false }
+    Ent { ts, data: e.data, crc: e.checksum, poison: false, canon: Some(serde_json::to_string(&delta).unwrap()) }
 }
 fn wal_entry(e: &Ent) -> WalEntry {
     let w = WalEntry { data: e.data.clone(), timestamp: e.ts, checksum: e.crc };
@@ -100,6 +108,7 @@ fn wal_entry(e: &Ent) -> WalEntry {
     w
 }
 
+const LATE_NAMES: [&str; 4] = ["wal-ffffffff.wal", "wal-100000000.wal", "wal-ffffffffffffffff.wal", "wal-0000000000000000000000001.wal"];
 const ODD_NAMES: [&str; 12] = [
     "wal-+3.wal", "wal-0A.wal", "wal-a.wal", "wal-.wal", "wal-zz.wal", "notes.txt", "wal-00000000000000002.wal",
     "wal-10000000000000000.wal", "wal--1.wal", "wal-+.wal", "WAL-00000001.wal", "wal-00000001.wal.bak",
@@ -139,14 +148,33 @@ fn build(rng: &mut Rng) -> Scenario {
     let mut rot = WalRotator::new(store.clone(), max_file_size).unwrap();
     let n = match rng.gen_range(0..8) { 0 => 0, 1 => 1, _ => rng.gen_range(2..9) };
     for _ in 0..n {
-        let e = gen_entry(rng, ents.len());
+        // now and then the very same entry is appended again (repeated identical content)
+        let (idx, e) = if !ents.is_empty() && rng.gen_bool(0.12) { let j = rng.gen_range(0..ents.len()); (j, ents[j].clone()) } else { (ents.len(), gen_entry(rng, ents.len())) };
         let seq = rot.append(&wal_entry(&e)).unwrap();
         let name = format!("wal-{:08x}.wal", seq);
         let sp = specs.entry(name.clone()).or_insert(FileSpec { name, seq_hdr: seq, ents: vec![], by_rotator: true });
-        sp.ents.push(ents.len());
-        ents.push(e);
+        sp.ents.push(idx);
+        if idx == ents.len() { ents.push(e); }
     }
     rot.sync().unwrap();
+    drop(rot);
+    // files whose sequences sit at the 8-digit / u64 limits (name order differs from numeric order),
+    // written after the rotator is gone (a rotator started on top of sequence u64::MAX cannot rotate)
+    if rng.gen_bool(0.25) {
+        let name = LATE_NAMES[rng.gen_range(0..LATE_NAMES.len())].to_string();
+        if !specs.contains_key(&name) {
+            let seq_hdr = [0u64, u64::MAX, 1 << 32][rng.gen_range(0..3)];
+            let mut w = WalWriter::new(store.create(&name).unwrap(), seq_hdr).unwrap();
+            let mut idx = Vec::new();
+            for _ in 0..rng.gen_range(0..3) {
+                let e = gen_entry(rng, ents.len());
+                w.append_entry(&wal_entry(&e)).unwrap();
+                idx.push(ents.len());
+                ents.push(e);
+            }
+            specs.insert(name.clone(), FileSpec { name, seq_hdr, ents: idx, by_rotator: false });
+        }
+    }
     let names = store.list().unwrap();
     let files: Vec<FileSpec> = names.iter().map(|n| specs[n].clone()).collect();
     let images: Vec<Vec<u8>> = names.iter().map(|n| store.get_file_data(n).unwrap()).collect();
@@ -167,6 +195,8 @@ fn apply(images: &[Vec<u8>], muts: &[Mut]) -> Vec<Option<Vec<u8>>> {
                 }
             }
             Mut::Drop(f) => v[*f] = None,
+            Mut::Fill(f, o, n, x) => { if let Some(d) = v[*f].as_mut() { let e = (*o + *n).min(d.len()); for j in *o..e { d[j] = *x; } } }
+            Mut::Append(f, n, x) => { if let Some(d) = v[*f].as_mut() { d.extend(std::iter::repeat(*x).take(*n)); } }
         }
     }
     v
@@ -189,13 +219,15 @@ fn parse_seq(name: &str) -> Option<u64> {
     u64::from_str_radix(h, 16).ok()
 }
 
-/// For one file: which prefix of its entries must survive, and whether the first damaged entry
-/// (if any) is damaged only inside its length/timestamp fields (bytes 0..12 of the entry).
-fn expected_file(sc: &Scenario, f: usize, base: &[u8], now: &Option<Vec<u8>>) -> (Vec<usize>, bool) {
-    let now = match now { Some(d) => d, None => return (vec![], false) };
+/// For one file: which prefix of its entries must survive; whether the first damaged entry (if any)
+/// is damaged only inside its length/timestamp fields (bytes 0..12 of the entry); and whether the
+/// bytes at the point where the intact entries end look like an empty entry (length 0, checksum 0).
+fn expected_file(sc: &Scenario, f: usize, base: &[u8], now: &Option<Vec<u8>>) -> (Vec<usize>, bool, bool) {
+    let now = match now { Some(d) => d, None => return (vec![], false, false) };
     if now.len() < 16 || now[0..5] != base[0..5] {
-        return (vec![], false);
+        return (vec![], false, false);
     }
+    let zero_at = |off: usize| now.len() >= off + 16 && now[off..off + 4].iter().all(|&b| b == 0) && now[off + 12..off + 16].iter().all(|&b| b == 0);
     let mut off = 16usize;
     let mut keep = Vec::new();
     for &ei in &sc.files[f].ents {
@@ -205,24 +237,25 @@ fn expected_file(sc: &Scenario, f: usize, base: &[u8], now: &Option<Vec<u8>>) ->
         if !intact {
             let in_class = now.len() >= end
                 && (off..end).filter(|&p| now[p] != base[p]).all(|p| p < off + 12);
-            return (keep, in_class);
+            return (keep, in_class, zero_at(off));
         }
         keep.push(ei);
         off = end;
     }
-    (keep, false)
+    (keep, false, zero_at(off))
 }
-fn expected_all(sc: &Scenario, imgs: &[Option<Vec<u8>>]) -> (Vec<usize>, bool) {
+fn expected_all(sc: &Scenario, imgs: &[Option<Vec<u8>>]) -> (Vec<usize>, bool, bool) {
     let mut order: Vec<(u64, usize)> = sc.files.iter().enumerate().filter_map(|(i, f)| parse_seq(&f.name).map(|s| (s, i))).collect();
     order.sort_by_key(|(s, _)| *s);
     let mut all = Vec::new();
-    let mut class = false;
+    let (mut class, mut zero) = (false, false);
     for (_, f) in order {
-        let (keep, c) = expected_file(sc, f, &sc.images[f], &imgs[f]);
+        let (keep, c, z) = expected_file(sc, f, &sc.images[f], &imgs[f]);
         all.extend(keep);
         class |= c;
+        zero |= z;
     }
-    (all, class)
+    (all, class, zero)
 }
 /// implementation entry -> index of the first identical original entry, or a literal
 fn rent(sc: &Scenario, e: &WalEntry) -> String {
@@ -234,6 +267,21 @@ fn rent(sc: &Scenario, e: &WalEntry) -> String {
     format!("RE {} {} {}", e.timestamp, chex(&e.data), e.checksum)
 }
 
+/// The property on one recovery result: exactly the intact appended entries, in sequence order,
+/// per file up to the first damaged entry (+ the entry a restarted rotator appended, if any).
+fn judge(out: &mut Out, i: u64, sc: &Scenario, imgs: &[Option<Vec<u8>>], es: &[WalEntry], extra: Option<usize>, mt: &str, via: &str) {
+    let got: Vec<(u64, Vec<u8>, u32)> = es.iter().map(|e| (e.timestamp, e.data.clone(), e.checksum)).collect();
+    let (mut exp, in_class, zero_class) = expected_all(sc, imgs);
+    if let Some(x) = extra { exp.push(x); }
+    let expo: Vec<(u64, Vec<u8>, u32)> = exp.iter().map(|&x| (sc.ents[x].ts, sc.ents[x].data.clone(), sc.ents[x].crc)).collect();
+    if got != expo {
+        let d = json!({"via": via, "mutations": mt, "expected_entry_indices": exp, "recovered": es.iter().map(|e| rent(sc, e)).collect::<Vec<_>>(),
+            "files": sc.files.iter().map(|f| f.name.clone()).collect::<Vec<_>>()});
+        if in_class { out.known(KNOWN, i, d); }
+        else if zero_class { out.known(KNOWN_ZERO, i, d); }
+        else { out.violation(i, "recovery is not exactly the intact appended entries (in order, per file up to the first damaged entry)", d); }
+    }
+}
 /// recover_all_entries under catch_unwind: None = the implementation panicked or returned Err
 fn safe_all<S: WalStore>(rot: &WalRotator<S>) -> Option<Vec<WalEntry>> {
     match std::panic::catch_unwind(std::panic::AssertUnwindSafe(|| rot.recover_all_entries())) {
@@ -260,6 +308,8 @@ fn main() {
     let n_flips = args.get("flips", 48) as usize;
     let n_damage = args.get("damage", 24) as usize;
     let all_flips = args.get("allflips", 0) == 1;
+    let big_every = args.get("bigevery", 4).max(1);
+    let big_huge = args.get("bighuge", 0) == 1;
     out.nontrivial_rule = "a case = one WAL directory written by the real WalRotator (plus files with unusual names written by the real WalWriter) and a list of probes on it: every truncation length of every file, single-bit flips (all bits of one entry header and of the file header, plus sampled / all others), random multi-byte patches, dropped files, two-file combinations; each probe runs recover_all_entries, some also recover_entries_after and truncate_before (with and without an active writer); non-trivial = at least 2 entries; distinct by canonical text of the directory".into();
     let range: Vec<u64> = match args.only { Some(i) => vec![i], None => (0..args.n).collect() };
     for i in range {
@@ -267,7 +317,8 @@ fn main() {
         let sc = build(&mut rng);
         let nf = sc.files.len();
         // ---- probes
-        let mut probes: Vec<(Vec<Mut>, u8, u64, bool)> = Vec::new(); // (mutations, kind 0=recover 1=after 2=trunc, T, active)
+        let mut probes: Vec<(Vec<Mut>, u8, u64, bool)> = Vec::new(); // (mutations, kind 0=recover 1=after 2=trunc 3=reader(T, file in .3 as bool unused) 4=restart, T, active)
+        let mut reader_files: Vec<usize> = Vec::new(); // file index of each kind-3 probe, in order
         probes.push((vec![], 0, 0, false));
         for f in 0..nf {
             for k in 0..sc.images[f].len() {
@@ -345,7 +396,57 @@ fn main() {
             probes.push((ms, 2, gen_ts(&mut rng), true));
         }
 
+        // structure-aware and multi-site damage: every field of one entry header and of one file header set to
+        // 0 / 0xFF.. / value+-1, alone and with 1-3 independent flips elsewhere in the file; zero- and
+        // 0xFF-filled ranges; filled tails appended after the end (nothing recomputes a checksum)
+        {
+            let with_ents: Vec<usize> = (0..nf).filter(|&f| !sc.files[f].ents.is_empty()).collect();
+            if !with_ents.is_empty() {
+                let f = with_ents[rng.gen_range(0..with_ents.len())];
+                let len = sc.images[f].len();
+                let which = rng.gen_range(0..sc.files[f].ents.len());
+                let off: usize = 16 + sc.files[f].ents[..which].iter().map(|&e| 16 + sc.ents[e].data.len()).sum::<usize>();
+                let fields = [(off, 4usize), (off + 4, 8), (off + 12, 4), (0, 4), (4, 1), (5, 1), (6, 2), (8, 8)];
+                for &(o, n) in &fields {
+                    let cur = &sc.images[f][o..o + n];
+                    let mut x = [0u8; 8];
+                    x[..n].copy_from_slice(cur);
+                    let val = u64::from_le_bytes(x);
+                    let mut vals: Vec<Vec<u8>> = vec![vec![0u8; n], vec![0xFF; n]];
+                    for nb in [val.wrapping_add(1), val.wrapping_sub(1)] { vals.push(nb.to_le_bytes()[..n].to_vec()); }
+                    for v in vals {
+                        if v == cur { continue; }
+                        probes.push((vec![Mut::Patch(f, o, v.clone())], 0, 0, false));
+                        let mut ms = vec![Mut::Patch(f, o, v)];
+                        for _ in 0..rng.gen_range(1..4) { ms.push(Mut::Flip(f, rng.gen_range(16..len), rng.gen_range(0..8))); }
+                        probes.push((ms, 0, 0, false));
+                    }
+                }
+            }
+            for &f in &nonempty {
+                let len = sc.images[f].len();
+                for &v in &[0u8, 0xFF] {
+                    let sz = [8usize, 16, 32, 64][rng.gen_range(0..4)];
+                    probes.push((vec![Mut::Fill(f, rng.gen_range(0..len), sz, v)], 0, 0, false));
+                    probes.push((vec![Mut::Fill(f, (rng.gen_range(0..len) / 16) * 16, 16, v), Mut::Flip(f, rng.gen_range(0..len), rng.gen_range(0..8))], 0, 0, false));
+                    for &n in &[7usize, 16, 40] { probes.push((vec![Mut::Append(f, n, v)], 0, 0, false)); }
+                }
+            }
+        }
+        // WalReader driven directly (open, sequence, entries, entries_after) on single files; restart on a
+        // damaged directory (fresh rotator, one more append, recovery)
+        for j in 0..8 {
+            if nonempty.is_empty() { break; }
+            let f = nonempty[rng.gen_range(0..nonempty.len())];
+            let len = sc.images[f].len();
+            let ms = match j % 4 { 0 => vec![], 1 => vec![Mut::Trunc(f, rng.gen_range(0..=len))], 2 => vec![Mut::Flip(f, rng.gen_range(0..len), rng.gen_range(0..8))], _ => vec![Mut::Append(f, 16, 0)] };
+            reader_files.push(f);
+            probes.push((ms.clone(), 3, gen_ts(&mut rng), false));
+            probes.push((ms, 4, 0, false));
+        }
+
         // ---- run them
+        let mut reader_next = 0usize;
         let mut pterms: Vec<String> = Vec::new();
         for (ms, kind, t, active) in &probes {
             let imgs = apply(&sc.images, ms);
@@ -357,6 +458,9 @@ fn main() {
                 (Some(Mut::Flip(..)), 1) => "flip",
                 (Some(Mut::Patch(..)), 1) => "patch",
                 (Some(Mut::Drop(..)), 1) => "drop",
+                (Some(Mut::Fill(..)), 1) => "fill",
+                (Some(Mut::Append(..)), 1) => "filled-tail",
+                (Some(Mut::Patch(_, _, p)), _) if p.len() <= 8 && ms.len() > 1 => "field+flips",
                 _ => "multi",
             };
             match kind {
@@ -377,18 +481,7 @@ fn main() {
                         Ok(Ok(es)) => {
                             let mapped: Vec<String> = es.iter().map(|e| rent(&sc, e)).collect();
                             pterms.push(format!("PRecover {} (Some {})", mt, clist(mapped.iter(), |m| m.clone())));
-                            let got: Vec<(u64, Vec<u8>, u32)> = es.iter().map(|e| (e.timestamp, e.data.clone(), e.checksum)).collect();
-                            let (exp, in_class) = expected_all(&sc, &imgs);
-                            let expo: Vec<(u64, Vec<u8>, u32)> = exp.iter().map(|&x| (sc.ents[x].ts, sc.ents[x].data.clone(), sc.ents[x].crc)).collect();
-                            if got != expo {
-                                let d = json!({"mutations": mt, "expected_entry_indices": exp, "recovered": mapped,
-                                    "files": sc.files.iter().map(|f| f.name.clone()).collect::<Vec<_>>()});
-                                if in_class {
-                                    out.known(KNOWN, i, d);
-                                } else {
-                                    out.violation(i, "recovery is not exactly the intact appended entries (in order, per file up to the first damaged entry)", d);
-                                }
-                            }
+                            judge(&mut out, i, &sc, &imgs, &es, None, &mt, "InMemoryWalStore");
                         }
                     }
                 }
@@ -418,7 +511,75 @@ fn main() {
                             if idx != sel {
                                 out.violation(i, "recover_entries_after is not the stamp filter of recover_all_entries", json!({"mutations": mt, "T": t, "got": idx, "want": sel}));
                             }
+                            // every field of every returned update, not only its key
+                            for (d, &ix) in ds.iter().zip(&idx) {
+                                let same = sc.ents.get(ix as usize).and_then(|e| e.canon.as_ref()).map(|c| *c == serde_json::to_string(d).unwrap()).unwrap_or(false);
+                                if !same {
+                                    out.violation(i, "recover_entries_after returned an update that differs from the appended one", json!({"mutations": mt, "T": t, "entry": ix, "got": serde_json::to_value(d).unwrap()}));
+                                }
+                            }
                             pterms.push(format!("PAfter {} {} (Some {})", mt, t, clist(idx.iter(), |x| x.to_string())));
+                        }
+                    }
+                }
+                3 => {
+                    // WalReader on one file: open, sequence, entries, entries_after
+                    let f = reader_files[reader_next];
+                    reader_next += 1;
+                    out.count(&format!("reader:{}", label));
+                    out.impl_checks += 1;
+                    let name = &sc.files[f].name;
+                    let r = std::panic::catch_unwind(std::panic::AssertUnwindSafe(|| -> Option<(u64, Vec<WalEntry>, Vec<WalEntry>)> {
+                        let rd = WalReader::open(store.open_read(name).ok()?).ok()?;
+                        Some((rd.sequence(), rd.entries(), rd.entries_after(*t)))
+                    }));
+                    match r {
+                        Err(_) => {
+                            out.violation(i, "the implementation panicked on WalReader::open / entries / entries_after", json!({"mutations": mt, "file": name, "directory": dir_json(&sc, &imgs)}));
+                            pterms.push(format!("PReader {} {} {} None", mt, f, t));
+                        }
+                        Ok(None) => pterms.push(format!("PReader {} {} {} None", mt, f, t)),
+                        Ok(Some((seq, all, after))) => {
+                            let want: Vec<(u64, Vec<u8>, u32)> = all.iter().filter(|e| e.timestamp >= *t).map(|e| (e.timestamp, e.data.clone(), e.checksum)).collect();
+                            let got: Vec<(u64, Vec<u8>, u32)> = after.iter().map(|e| (e.timestamp, e.data.clone(), e.checksum)).collect();
+                            if got != want {
+                                out.violation(i, "WalReader::entries_after is not the stamp filter (>=) of entries", json!({"mutations": mt, "file": name, "T": t}));
+                            }
+                            // the single file judged like a directory of one file
+                            let (keep, in_class, zero) = expected_file(&sc, f, &sc.images[f], &imgs[f]);
+                            let expo: Vec<(u64, Vec<u8>, u32)> = keep.iter().map(|&x| (sc.ents[x].ts, sc.ents[x].data.clone(), sc.ents[x].crc)).collect();
+                            let gota: Vec<(u64, Vec<u8>, u32)> = all.iter().map(|e| (e.timestamp, e.data.clone(), e.checksum)).collect();
+                            if gota != expo {
+                                let d = json!({"via": "WalReader", "mutations": mt, "file": name});
+                                if in_class { out.known(KNOWN, i, d); } else if zero { out.known(KNOWN_ZERO, i, d); }
+                                else { out.violation(i, "WalReader::entries is not exactly the intact appended entries of the file", d); }
+                            }
+                            pterms.push(format!("PReader {} {} {} (Some ({}, {}, {}))", mt, f, t, seq, clist(all.iter(), |e| rent(&sc, e)), clist(after.iter(), |e| rent(&sc, e))));
+                        }
+                    }
+                }
+                4 => {
+                    // restart: a fresh rotator on the (damaged) directory appends one more entry, then recovery
+                    out.count(&format!("restart:{}", label));
+                    out.impl_checks += 1;
+                    let mut rot = WalRotator::new(store.clone(), sc.max_file_size).unwrap();
+                    let mut extra: Option<usize> = None;
+                    if !sc.ents.is_empty() {
+                        let ei = rng.gen_range(0..sc.ents.len());
+                        match std::panic::catch_unwind(std::panic::AssertUnwindSafe(|| rot.append(&wal_entry(&sc.ents[ei])).and_then(|s| rot.sync().map(|_| s)))) {
+                            Ok(Ok(_)) => extra = Some(ei),
+                            _ => { out.count("append_refused_at_max_sequence"); rot = WalRotator::new(store.clone(), sc.max_file_size).unwrap(); }
+                        }
+                    }
+                    let ex = copt(&extra, |e| e.to_string());
+                    match safe_all(&rot) {
+                        None => {
+                            out.violation(i, "the implementation panicked on WalRotator::recover_all_entries", json!({"mutations": mt, "after": "restart + append", "directory": dir_json(&sc, &imgs)}));
+                            pterms.push(format!("PRestart {} {} None", mt, ex));
+                        }
+                        Some(es) => {
+                            judge(&mut out, i, &sc, &imgs, &es, extra, &mt, "restart + append");
+                            pterms.push(format!("PRestart {} {} (Some {})", mt, ex, clist(es.iter(), |e| rent(&sc, e))));
                         }
                     }
                 }
@@ -428,8 +589,12 @@ fn main() {
                     let mut extra: Option<(usize, String)> = None;
                     if *active && !sc.ents.is_empty() {
                         let ei = rng.gen_range(0..sc.ents.len());
-                        let seq = rot.append(&wal_entry(&sc.ents[ei])).unwrap();
-                        extra = Some((ei, format!("wal-{:08x}.wal", seq)));
+                        // (a directory holding sequence u64::MAX cannot be rotated: append panics on the sequence
+                        //  overflow; that is the append path, not recovery - the probe then runs without a writer)
+                        match std::panic::catch_unwind(std::panic::AssertUnwindSafe(|| rot.append(&wal_entry(&sc.ents[ei])))) {
+                            Ok(Ok(seq)) => extra = Some((ei, format!("wal-{:08x}.wal", seq))),
+                            _ => { out.count("append_refused_at_max_sequence"); rot = WalRotator::new(store.clone(), sc.max_file_size).unwrap(); }
+                        }
                     }
                     let before = match safe_all(&rot) {
                         Some(v) => v,
@@ -477,6 +642,114 @@ fn main() {
                             pterms.push(format!("PTrunc {} {} {} None", mt, ex, t));
                         }
                     }
+                }
+            }
+        }
+        // ---- the same directory behind the other store implementations (implementation side only)
+        {
+            let sample: Vec<Vec<Mut>> = {
+                let mut v = vec![vec![]];
+                for _ in 0..3 { if !probes.is_empty() { let (ms, k, _, _) = &probes[rng.gen_range(0..probes.len())]; if *k == 0 { v.push(ms.clone()); } } }
+                v
+            };
+            for (j, ms) in sample.iter().enumerate() {
+                let imgs = apply(&sc.images, ms);
+                let mt = clist(ms.iter(), |m| m.term());
+                // LocalWalStore: real files in a scratch directory
+                let dir = args.out.join(format!("localwal-{}-{}", i, j));
+                let _ = std::fs::remove_dir_all(&dir);
+                let local = LocalWalStore::new(dir.clone()).unwrap();
+                for (f, img) in sc.files.iter().zip(&imgs) { if let Some(d) = img { std::fs::write(dir.join(&f.name), d).unwrap(); } }
+                out.impl_checks += 1;
+                out.count("store:local-files");
+                match WalRotator::new(local, sc.max_file_size).ok().and_then(|r| safe_all(&r)) {
+                    None => out.violation(i, "the implementation panicked or failed on WalRotator::recover_all_entries over LocalWalStore", json!({"mutations": mt, "directory": dir_json(&sc, &imgs)})),
+                    Some(es) => judge(&mut out, i, &sc, &imgs, &es, None, &mt, "LocalWalStore"),
+                }
+                let _ = std::fs::remove_dir_all(&dir);
+            }
+            // SimulatedWalStore whose reads flip one byte (transiently corrupted reads): whatever comes back
+            // must be, file by file and in order, a prefix of what was appended (stamps apart: known finding)
+            let distinct = { let mut d: Vec<&Vec<u8>> = sc.ents.iter().map(|e| &e.data).collect(); d.sort(); d.windows(2).all(|w| w[0] != w[1]) && sc.ents.iter().all(|e| !e.data.is_empty()) };
+            let no_repeat = { let mut all: Vec<usize> = sc.files.iter().flat_map(|f| f.ents.clone()).collect(); all.sort(); all.windows(2).all(|w| w[0] != w[1]) };
+            if distinct && no_repeat {
+                for round in 0..4u64 {
+                    let cfg = SimulatedWalStoreConfig { corruption_prob: 1.0, ..SimulatedWalStoreConfig::no_faults() };
+                    let sim = SimulatedWalStore::new(redis_sim::io::simulation::SimulatedRng::new(args.seed ^ (i << 8) ^ round), cfg);
+                    for (f, img) in sc.files.iter().zip(&sc.images) { let mut w = sim.inner_store().create(&f.name).unwrap(); if !img.is_empty() { w.append(img).unwrap(); } }
+                    out.impl_checks += 1;
+                    out.count("store:corrupting-reads");
+                    match WalRotator::new(sim.clone(), sc.max_file_size).ok().and_then(|r| safe_all(&r)) {
+                        None => out.violation(i, "the implementation panicked or failed on recovery over a store with corrupted reads", json!({"files": sc.files.iter().map(|f| f.name.clone()).collect::<Vec<_>>()})),
+                        Some(es) => {
+                            let mut order: Vec<(u64, usize)> = sc.files.iter().enumerate().filter_map(|(k, f)| parse_seq(&f.name).map(|s| (s, k))).collect();
+                            order.sort_by_key(|(s, _)| *s);
+                            let mut pos = 0usize;
+                            let mut stamp_changed = false;
+                            for (_, f) in order {
+                                for &ei in &sc.files[f].ents {
+                                    if pos < es.len() && es[pos].data == sc.ents[ei].data && es[pos].checksum == sc.ents[ei].crc { stamp_changed |= es[pos].timestamp != sc.ents[ei].ts; pos += 1; } else { break; }
+                                }
+                            }
+                            if pos != es.len() {
+                                out.violation(i, "recovery over a store with corrupted reads returned an entry that was never appended (or out of order)", json!({"recovered": es.iter().map(|e| rent(&sc, e)).collect::<Vec<_>>(), "position": pos}));
+                            } else if stamp_changed {
+                                out.known(KNOWN, i, json!({"via": "SimulatedWalStore corrupted read"}));
+                            }
+                            if es.len() < sc.files.iter().map(|f| f.ents.len()).sum::<usize>() { out.count("store:corrupting-reads:lost-a-tail"); }
+                        }
+                    }
+                }
+            }
+        }
+        // ---- size and count boundaries (implementation side only): many entries in one directory, payloads
+        //      around 23 (SDS), 256, 4096, 65536 bytes; pristine, truncations, flips, fills
+        if i % big_every == 1 % big_every {
+            let mut ents: Vec<Ent> = Vec::new();
+            let count = if big_huge { [1000usize, 4096, 10000][rng.gen_range(0..3)] } else { [255usize, 256, 257][rng.gen_range(0..3)] };
+            let max_file_size = [4096usize, 65536, 100000][rng.gen_range(0..3)];
+            let mut sizes: Vec<usize> = vec![22, 23, 24, 255, 256, 257, 4095, 4096, 4097];
+            if big_huge { sizes.extend([65535, 65536, 65537, (1 << 20) + 1]); }
+            let store = InMemoryWalStore::new();
+            let mut rot = WalRotator::new(store.clone(), max_file_size).unwrap();
+            let mut specs: BTreeMap<String, FileSpec> = BTreeMap::new();
+            for j in 0..count + sizes.len() {
+                let ts = gen_ts(&mut rng);
+                let vlen = if j >= count { sizes[j - count] } else { rng.gen_range(0..4) };
+                let val: Vec<u8> = (0..vlen).map(|x| (x as u8).wrapping_mul(37) ^ j as u8).collect();
+                let v = ReplicatedValue::with_value(SDS::new(val), LamportClock { time: ts, replica_id: ReplicaId::new(1) });
+                let we = WalEntry::from_delta(&ReplicationDelta::new(format!("b{}", j), v, ReplicaId::new(1)), ts).unwrap();
+                let seq = rot.append(&we).unwrap();
+                let name = format!("wal-{:08x}.wal", seq);
+                specs.entry(name.clone()).or_insert(FileSpec { name, seq_hdr: seq, ents: vec![], by_rotator: true }).ents.push(ents.len());
+                ents.push(Ent { ts, data: we.data, crc: we.checksum, poison: false, canon: None });
+            }
+            rot.sync().unwrap();
+            drop(rot);
+            let names = store.list().unwrap();
+            let big = Scenario { ents, files: names.iter().map(|n| specs[n].clone()).collect(), images: names.iter().map(|n| store.get_file_data(n).unwrap()).collect(), max_file_size };
+            out.count(&format!("big:{}-entries:{}-files", count + sizes.len(), big.files.len().min(99)));
+            let mut bp: Vec<Vec<Mut>> = vec![vec![]];
+            for _ in 0..12 {
+                let f = rng.gen_range(0..big.files.len());
+                let len = big.images[f].len();
+                bp.push(vec![Mut::Trunc(f, rng.gen_range(0..=len))]);
+                bp.push(vec![Mut::Flip(f, rng.gen_range(0..len), rng.gen_range(0..8))]);
+            }
+            for _ in 0..4 {
+                let f = rng.gen_range(0..big.files.len());
+                let len = big.images[f].len();
+                bp.push(vec![Mut::Fill(f, rng.gen_range(0..len), 64, [0u8, 0xFF][rng.gen_range(0..2)])]);
+                bp.push(vec![Mut::Append(f, 4096, 0xFF)]);
+            }
+            for ms in &bp {
+                let imgs = apply(&big.images, ms);
+                let mt = clist(ms.iter(), |m| m.term());
+                out.impl_checks += 1;
+                out.count("big:probe");
+                match WalRotator::new(mk_store(&big, &imgs), max_file_size).ok().and_then(|r| safe_all(&r)) {
+                    None => out.violation(i, "the implementation panicked or failed on WalRotator::recover_all_entries (large directory)", json!({"mutations": mt, "entries": big.ents.len()})),
+                    Some(es) => judge(&mut out, i, &big, &imgs, &es, None, &mt, "large directory"),
                 }
             }
         }
